@@ -2,17 +2,21 @@
 
 Monitors (oracles at the API boundary, reference = vmon/refs/{ec,rfc6979,ecdsa}.py):
   sign / sign_with_recid   (d, z) -> (r, s[, recid]) vs the reference RFC 6979 signature, range, reference verification
-  deterministic_generate_k tap: every (n, d, z) -> k vs the reference nonce; nonce / r reuse table on 256-bit curves
+  deterministic_generate_k called directly on every signing event and tapped as signing calls it: (n, d, z) -> k vs the
+                           reference nonce; nonce reuse table (tapped k) and r reuse table (always) on 256-bit curves
   verify                   truth table vs the literal verification equation, incl. out-of-range r/s, forgery families
                            and the degenerate r = -z/d whose verification point is the point at infinity
-  recovery                 every returned key reference-verifies; signer present when x(R) < n; y_parity selects R
+                           and the doubling case z = r*d (both terms the same point), hand-built nonce x >= n
+  recovery                 every returned key reference-verifies; signer present when x(R) < n (also for the (r, n-s)
+                           twin, for z = r*d, and when the other candidate is the point at infinity); y_parity selects R
   Key.sign / Key.verify    the DER layer on top
 on secp256k1 / secp256r1 (OpenSSL worker, PYCOIN_NATIVE=none worker, in-process pure Generator) and exhaustively on
 toy curves; plus the valgrind memcheck leg over the ctypes/libcrypto path.
 """
+import hashlib
 import itertools
 
-from vmon.probe import shard_rng, observe, Wrapped
+from vmon.probe import shard_rng, observe
 from vmon.refs import ec, ecdsa as RE, rfc6979 as RN
 from vmon import memcheck
 
@@ -23,7 +27,9 @@ TECHNIQUE = ("differential runtime monitor vs independent RFC 6979 / SEC 1 refer
 RULE = ("a case is one monitored call: a signing event (curve, configuration, d, z), a verification event (Q, z, r, s), a "
         "recovery event (z, r, s, y_parity) or a Key-layer event. Keys d from {1, 2, 3, n-1, n-2, 2^k, 2^k+-1, random}, hashes z "
         "from {1, 2, n-1, n, n+1, 2^255, 2^256-1, random}; every valid signature spawns forgeries (other key, other hash, "
-        "r/s in {0, n, n+r, 2^256-1}, swapped, s->n-s, Q->-Q, z->z+-n, r+1, degenerate r=-z/d). Toy curves: every d, z over "
+        "r/s in {0, n, n+r, 2^256-1}, swapped, s->n-s, Q->-Q, z->z+-n, r+1, degenerate r=-z/d); every 4th family adds hand-built "
+        "valid signatures with z = r*d (verification sum is a doubling) and z = -r*d/2 (one recovery candidate is infinity), "
+        "every 6th one with nonce x in [n, p). Toy curves: every d, z over "
         "every residue and every top-bit pattern, every (r, s) in [0, n+1]^2. Distinct by (kind, curve, configuration, "
         "operands); all counted cases are non-trivial (none is a fixed vector of the repository's suite except d=z=1).")
 ASSUMPTIONS = [
@@ -45,6 +51,11 @@ ASSUMPTIONS = [
     "parity (the documented meaning of the parameter); exceptions from recovery are judged only when the signer's key had "
     "to be returned",
     "Key.verify is compared with the reference only for well-formed DER; malformed DER is not generated here (C10)",
+    "how signing reaches the nonce function (which module attribute, positional or keyword arguments) is not part of the "
+    "statement: the nonce function is judged by calling it directly and, when the tap sees signing's own call, on that call; "
+    "a call path the tap cannot see is tallied only - the signature itself is always compared with the RFC 6979 signature",
+    "every clause / listed kind has a required counter (REQUIRED_*): one that stays at 0 makes the run INCONCLUSIVE, as does "
+    "an OpenSSL-planned shard that found the pure arithmetic active (config_active:<curve>/openssl)",
     "libsecp256k1 is not installed in this environment: that configuration is recorded absent",
 ]
 EXPLANATION = ("every signing, verification, recovery and Key-layer call on the real library is compared with the reference; "
@@ -95,11 +106,12 @@ def plan(tier, seed):
         # place where "x-coordinate reduced mod n" differs from the x-coordinate itself (r = x - n), and where recovery must
         # refuse / miss the signer (nonce point's x >= n)
         wrap = [c for c in toys if c.n < c.p and any(P[0] >= c.n and P[0] % c.n for P in c.all_points())]
+        nplain = len(picks)
         picks.append((wrap[seed % len(wrap)], 1, True))
         picks.append((wrap[(seed * 7 + 11) % len(wrap)], 1, True))
-        for c, parts, full in picks:
+        for j, (c, parts, full) in enumerate(picks):
             for part in range(parts):
-                shards.append({"kind": "toy", "curve": _toy_params(c), "part": part, "parts": parts, "full": full,
+                shards.append({"kind": "toy", "curve": _toy_params(c), "part": part, "parts": parts, "full": full, "wrap": j >= nplain,
                                "budget": 6000 if full else 3000, "label": "toy n=%d %d/%d" % (c.n, part + 1, parts)})
         big("secp256k1", "module", 70, "mixed", count=2)
         big("secp256r1", "module", 70, "mixed", count=2)
@@ -115,7 +127,7 @@ def plan(tier, seed):
         rest = [c for c in toys if c.n > 13]
         rng = shard_rng(seed, PROPERTY, tier, "plan")
         for c in small:
-            shards.append({"kind": "toy", "curve": _toy_params(c), "part": 0, "parts": 1, "full": True, "budget": 10 ** 9,
+            shards.append({"kind": "toy", "curve": _toy_params(c), "part": 0, "parts": 1, "full": True, "budget": 10 ** 9, "wrap": True,
                            "label": "toy n=%d" % c.n})
         for c in rng.sample(rest, 72):
             shards.append({"kind": "toy", "curve": _toy_params(c), "part": 0, "parts": 1, "full": False, "budget": 30000,
@@ -144,15 +156,59 @@ _STATE = {"ctx": {}, "tap": None}
 BIG = {"secp256k1": ec.SECP256K1, "secp256r1": ec.SECP256R1}
 
 
+NONCE_FN = "deterministic_generate_k"
+
+
 class Tap:
+    """records every call of the library's nonce function, wherever signing looks it up (the name imported into
+    pycoin.ecdsa.Generator, or the attribute of pycoin.ecdsa.rfc6979). The property does not prescribe HOW signing
+    reaches the function, so a call path the tap cannot see is tallied, never reported; the function is also
+    called directly (self.fn, the unwrapped original) on every signing event."""
+
     def __init__(self, rec):
         import pycoin.ecdsa.Generator as GM
+        import pycoin.ecdsa.rfc6979 as RM
         self.calls = []
         self.rec = rec
+        self.fn = getattr(RM, NONCE_FN, None)
+        self.sites = 0
+        for mod in (RM, GM):
+            orig = mod.__dict__.get(NONCE_FN)
+            if callable(orig) and not getattr(orig, "_vmon_tap", False):
+                setattr(mod, NONCE_FN, self._wrap(orig))
+                self.sites += 1
 
-        def after(a, kw, r, e):
-            self.calls.append((a, kw, r, e))
-        self.w = Wrapped(GM, "deterministic_generate_k", after=after, rec=rec, op="deterministic_generate_k")
+    def _wrap(self, orig):
+        me = self
+
+        def wrapper(*a, **kw):
+            me.rec.ev("tap:" + NONCE_FN)
+            try:
+                r = orig(*a, **kw)
+            except BaseException as e:
+                me.calls.append((a, kw, None, e))
+                raise
+            me.calls.append((a, kw, r, None))
+            return r
+        wrapper.__wrapped__ = orig
+        wrapper._vmon_tap = True
+        return wrapper
+
+    def bind(self, a, kw):
+        """(n, d, z) of a tapped call, or None when the call cannot be read as (order, key, hash[, sha256])."""
+        import hashlib
+        import inspect
+        try:
+            ba = inspect.signature(self.fn).bind(*a, **kw)
+            ba.apply_defaults()
+            vals = list(ba.arguments.values())
+        except Exception:
+            return None
+        if len(vals) < 3 or not all(isinstance(v, int) for v in vals[:3]):
+            return None
+        if len(vals) > 3 and vals[3] is not hashlib.sha256:
+            return None
+        return tuple(vals[:3])
 
     def take(self):
         c, self.calls = self.calls, []
@@ -211,7 +267,10 @@ def _get_ctx(curve, gen, rec):
     ctx.c, ctx.g = c, g
     ctx.toy = not isinstance(curve, str)
     ctx.native_sign = type(g).sign is not Generator.sign
-    ctx.native_mul = any(k.__name__ == "Optimizations" and k.__module__.startswith("pycoin.ecdsa.native") for k in type(g).__mro__)
+    # "accelerated" = point multiplication is not the pure Curve.multiply any more (whatever the mix-in class is called)
+    from pycoin.ecdsa.Curve import Curve as _PureCurve
+    ctx.native_mul = (getattr(type(g), "multiply", None) is not _PureCurve.multiply or
+                      any(k.__name__ == "Optimizations" and k.__module__.startswith("pycoin.ecdsa.native") for k in type(g).__mro__))
     ctx.cfg = "%s/%s" % (gen, "native-sign" if ctx.native_sign else "openssl" if ctx.native_mul else "pure")
     ctx.KeyClass = Key.make_subclass("VM", None, g)
     ctx.sg_cache = (None, None)
@@ -269,7 +328,8 @@ def judge_sign(ctx, case):
     except Exception:
         rec.violation("sign.malformed_result", case, [out, out2], "(r, s, recid) / (r, s)")
         return None
-    if (r, s) != (r2, s2) and not ctx.native_sign:
+    if (r, s) != (r2, s2) and not ctx.native_sign and sg["first_ok"]:
+        # (on the retry path the statement demands range and validity only, of each call separately)
         rec.violation("sign.sign_and_sign_with_recid_differ", case, [out, out2], "same (r, s)")
         ok = False
     Q = c.mul(d, c.G)
@@ -290,37 +350,66 @@ def judge_sign(ctx, case):
             ok = False
     if not sg["first_ok"]:
         rec.ev("sign.first_nonce_unusable(retry path)")
-    # nonce tap
+    if sg["first_ok"] and sg["R"][0] >= n:
+        rec.ev("sign.nonce_point_x_ge_n(r = x - n)")
+    # the nonce function itself, called directly (the unwrapped original) ...
+    h1 = z.to_bytes(32, "big")
+    if ctx.toy:
+        qlen = n.bit_length()
+        k0 = RN.bits2int(RN.HmacDrbg(hashlib.sha256, RN.int2octets(d, n) + RN.bits2octets(h1, n)).next_bits(qlen), qlen)
+        if not 1 <= k0 < n:
+            rec.ev("nonce.first_drbg_output_rejected(RFC 6979 step h.3 loop)")
+    if ctx.tap.fn is not None:
+        rec.ev("deterministic_generate_k")
+        rec.ev("deterministic_generate_k.direct")
+        stn, kd = observe(ctx.tap.fn, n, d, z)
+        want_k = RN.nonce(n, d, h1)
+        if stn != "ok":
+            rec.violation("nonce.function_raises", dict(case, api="direct"), kd, want_k)
+        elif kd != want_k:
+            rec.violation("nonce.differs_from_rfc6979", dict(case, api="direct"), kd, want_k)
+    # ... and as signing called it (tap). How signing reaches the function, and with which argument spelling, is not
+    # the property's business: calls the tap cannot see or read are tallied; the signature comparison above decides.
     for which, tp, needed in (("sign_with_recid", taps, True), ("sign", taps2, not ctx.native_sign)):
         if needed and not tp:
-            rec.violation("nonce.tap_saw_no_call", dict(case, api=which), None, "deterministic_generate_k(n, d, z) called")
+            rec.ev("nonce.tap_saw_no_call(tallied)")
         for (a, kw, k, exc) in tp:
             rec.ev("deterministic_generate_k")
-            if exc is not None or kw or len(a) != 3:
-                rec.violation("nonce.generator_raised_or_odd_args", dict(case, api=which), [a, kw, exc], "k")
+            rec.ev("deterministic_generate_k.tapped")
+            bound = ctx.tap.bind(a, kw)
+            if exc is not None or bound is None:
+                rec.ev("nonce.tapped_call_raised_or_unreadable(tallied)")
                 continue
-            n_, d_, z_ = a
+            n_, d_, z_ = bound
             if (n_, d_, z_) != (n, d, z):
-                rec.violation("nonce.called_with_other_inputs", dict(case, api=which), [n_, d_, z_], [n, d, z])
+                rec.ev("nonce.tapped_call_with_other_argument_spelling(tallied)")
             want_k = RN.nonce(n_, d_, z_.to_bytes(32, "big")) if (1 <= d_ < n_ and 0 < z_ < 1 << 256) else None
             if want_k is not None and k != want_k:
                 rec.violation("nonce.differs_from_rfc6979", dict(case, api=which), k, want_k)
-            if n.bit_length() >= 128 and isinstance(k, int):
-                _nonce_table(ctx, case, k, d, z % n, r)
+            if n.bit_length() >= 128 and isinstance(k, int) and (n_, d_, z_ % n_) == (n, d, z % n):
+                _nonce_table(ctx, case, d, z % n, k=k)
+    if n.bit_length() >= 128:
+        # r = x(kG) mod n: two (key, hash) pairs with one r have used one nonce (or its negative)
+        for rr in dict.fromkeys((r, r2)):
+            if isinstance(rr, int):
+                _nonce_table(ctx, case, d, z % n, r=rr)
     return (r, s, recid, sg) if ok else None
 
 
-def _nonce_table(ctx, case, k, d, zr, r):
+def _nonce_table(ctx, case, d, zr, k=None, r=None):
     rec = ctx.rec
-    prev = ctx.nonce_by_k.setdefault(k, (d, zr))
-    if prev != (d, zr):
-        rec.violation("nonce.shared_between_distinct_key_hash_pairs", dict(case, other={"d": prev[0], "z_mod_n": prev[1]}),
-                      {"k": k}, "distinct nonces")
-    prev = ctx.nonce_by_r.setdefault(r, (d, zr))
-    if prev != (d, zr):
-        rec.violation("nonce.same_r_for_distinct_key_hash_pairs", dict(case, other={"d": prev[0], "z_mod_n": prev[1]}),
-                      {"r": r}, "distinct r")
-    rec.ev("nonce_table_entries")
+    if k is not None:
+        prev = ctx.nonce_by_k.setdefault(k, (d, zr))
+        if prev != (d, zr):
+            rec.violation("nonce.shared_between_distinct_key_hash_pairs", dict(case, other={"d": prev[0], "z_mod_n": prev[1]}),
+                          {"k": k}, "distinct nonces")
+        rec.ev("nonce_table_entries")
+    if r is not None:
+        prev = ctx.nonce_by_r.setdefault(r, (d, zr))
+        if prev != (d, zr):
+            rec.violation("nonce.same_r_for_distinct_key_hash_pairs", dict(case, other={"d": prev[0], "z_mod_n": prev[1]}),
+                          {"r": r}, "distinct r")
+        rec.ev("nonce_table_r_entries")
 
 
 def _reason(n, r, s):
@@ -352,6 +441,8 @@ def judge_verify(ctx, case):
             rec.violation("verify.accepts_invalid." + _reason(n, r, s), case, got, exp)
         else:
             rec.violation("verify.rejects_valid", case, got, exp)
+    if exp and ctx.toy and RE.verification_point(c, Q, z % n, r, s)[0] >= n:
+        rec.ev("verify.valid_nonce_point_x_ge_n(toy)")           # the region where "reduced mod n" matters
     return exp
 
 
@@ -369,6 +460,12 @@ def judge_recover(ctx, case):
     must = signer is not None and R is not None and R[0] < n and (yp is None or fr == "same")
     must_not = signer is not None and R is not None and yp is not None and fr == "opposite"
     rec.ev("Generator.possible_public_pairs_for_signature")
+    if case.get("label"):
+        rec.ev("recover." + case["label"])
+    if must:
+        rec.ev("recover.signer_demanded")
+    if must_not:
+        rec.ev("recover.signer_excluded_by_parity_demanded")
     rec.case(("recover", ctx.curve_id, ctx.cfg, z, r, s, yp))
     st, got = observe(g.possible_public_pairs_for_signature, z, (r, s), yp) if yp is not None else \
         observe(g.possible_public_pairs_for_signature, z, (r, s))
@@ -453,7 +550,7 @@ def judge_key(ctx, case):
     for who, k in (("private", key), ("public", pubkey)):
         rec.ev("Key.verify")
         st, v = observe(k.verify, h, sig)
-        if st != "ok" or v is not True:
+        if st != "ok" or not v:
             rec.violation("key.verify_rejects_own_signature", dict(case, who=who), v, True)
 
 
@@ -512,7 +609,7 @@ def forgeries(c, rng, d, z, r, s, other_Q, other_z, which):
     if rq and zq:
         out.append(("degenerate_infinity_r_is_Qx", Q, zq, rq, s))
         out.append(("degenerate_infinity_r_is_Qx", Q, zq, rq, rng.randrange(1, n)))
-    # ... and the doubling relation z = r*d (both terms are the same point; the signature is VALID when r = x(2*(z/s)G))
+    # (the doubling relation z = r*d - both terms the same point - needs its own nonce: see special_cases)
     for v in (0, n, n + r, M, -r):
         out.append(("r_out_of_range", Q, z, v, s))
     for v in (0, n, n + s, M, -s):
@@ -541,27 +638,104 @@ def z_pool(n, rng):
     return [v for v in dict.fromkeys(b) if 1 <= v <= M]
 
 
+REQUIRED_OPS = ("Generator.sign", "Generator.sign_with_recid", "Generator.verify", "Generator.possible_public_pairs_for_signature",
+                "Key.sign", "Key.verify", "deterministic_generate_k")
+# one counter per clause / listed kind of the statement (merged over all shards; any of them at 0 -> INCONCLUSIVE)
+REQUIRED_BIG = ("deterministic_generate_k.direct", "nonce_table_r_entries",
+                "verify.valid", "verify.other_key", "verify.other_hash", "verify.r_out_of_range", "verify.s_out_of_range",
+                "verify.rs_out_of_range", "verify.s_negated(valid)", "verify.z_shifted_by_n(valid)", "verify.degenerate_infinity",
+                "verify.valid_wrapped_nonce_x_ge_n", "verify.valid_doubling", "Key.verify.valid", "Key.verify.valid_doubling",
+                "Key.verify.other_key", "Key.verify.other_hash", "Key.verify.r_out_of_range", "Key.verify.s_out_of_range",
+                "recover.signer_demanded", "recover.signer_excluded_by_parity_demanded", "recover.returned_key",
+                "recover.s_negated", "recover.valid_wrapped_nonce_x_ge_n", "recover.valid_doubling",
+                "recover.other_candidate_is_infinity")
+REQUIRED_TOY = ("sign.first_nonce_unusable(retry path)", "nonce.first_drbg_output_rejected(RFC 6979 step h.3 loop)",
+                "verify.valid_in_table", "recover.signer_demanded", "recover.s_negated")
+REQUIRED_TOY_WRAP = ("sign.nonce_point_x_ge_n(r = x - n)", "verify.valid_nonce_point_x_ge_n(toy)",
+                     "recover.nonce_point_x_ge_n(signer not demanded)")
+
+
+def recover_variants(c, r, s, recid, R):
+    """(label, s, y_parity, from_recid, nonce point) for one valid signature: no parity / the reported parity / the
+    opposite one, and the malleated twin (r, n - s), whose nonce point is -R (same x, other parity)."""
+    n = c.n
+    out = [("signer", s, None, None, R), ("signer", s, recid & 1, "same", R), ("signer", s, 1 - (recid & 1), "opposite", R)]
+    if R is not None:
+        Rn = c.neg(R)
+        out += [("s_negated", n - s, None, None, Rn), ("s_negated", n - s, 1 - (recid & 1), "same", Rn)]
+    return out
+
+
+def special_cases(ctx, rng, d, Q, i, lite=False):
+    """hand-built VALID signatures of key d (nonce k, R = kG, r = x(R) mod n, s = (z + r d)/k) for hashes tied to r and d:
+       z =  r d      the two terms of (z/s)G + (r/s)Q are the SAME point: the verification sum is a doubling
+       z = -r d / 2  recovery's candidate from -R is the point at infinity and the one from R needs a doubling
+    Both happen with probability ~2^-256 for a deterministic signer; verification must accept, recovery must return d*G."""
+    c, n = ctx.c, ctx.c.n
+    k = rng.randrange(1, n)
+    R = c.mul(k, c.G)
+    r = R[0] % n
+    if r == 0:
+        return
+    ki = pow(k, -1, n)
+    M = (1 << 256) - 1
+    up = lambda z: z + n if (i // 4) % 2 and z + n <= M else z          # the same hash class, spelled z or z + n
+    z1 = r * d % n
+    s1 = ki * (z1 + r * d) % n
+    z2 = -r * d * pow(2, -1, n) % n
+    s2 = ki * (z2 + r * d) % n
+    yR = R[1] & 1
+    rot = (i // 4) % 3
+    if z1 and s1:
+        z1 = up(z1)
+        judge_verify(ctx, base_case(ctx, "verify", Q=list(Q), z=z1, r=r, s=s1, label="valid_doubling", as_point=bool(i % 8 == 1)))
+        if not lite or rot == 0:
+            judge_verify(ctx, base_case(ctx, "verify", Q=list(Q), z=z1, r=r, s=n - s1, label="valid_doubling", as_point=False))
+        if not lite or rot == 1:
+            judge_verify(ctx, base_case(ctx, "verify", Q=list(Q), z=z1, r=r, s=s1 % (n - 1) + 1, label="doubling_wrong_s", as_point=False))
+        if not lite or rot == 2:
+            judge_key_verify(ctx, base_case(ctx, "key_verify", Q=list(Q), z=z1, r=r, s=s1, label="valid_doubling"))
+        if not lite:
+            judge_recover(ctx, base_case(ctx, "recover", z=z1, r=r, s=s1, y_parity=None, signer=list(Q), R=list(R), label="valid_doubling"))
+    if z2 and s2:
+        z2 = up(z2)
+        if not lite:
+            judge_verify(ctx, base_case(ctx, "verify", Q=list(Q), z=z2, r=r, s=s2, label="valid_recovery_twin_is_infinity", as_point=False))
+        for j, (yp, fr) in enumerate(((None, None), (yR, "same"), (1 - yR, "opposite"))):
+            if not lite or j == 0 or j == 1 + rot % 2:
+                judge_recover(ctx, base_case(ctx, "recover", z=z2, r=r, s=s2, y_parity=yp, from_recid=fr, signer=list(Q), R=list(R),
+                                             label="other_candidate_is_infinity"))
+
+
 def run_big(spec, rec):
     import pycoin.ecdsa.native.secp256k1 as NS
     ctx = get_ctx(spec["curve"], spec["gen"], rec)
     c, n = ctx.c, ctx.c.n
     rng = shard_rng(spec["seed"], PROPERTY, spec["tier"], spec["shard"])
-    rec.require("Generator.sign", "Generator.sign_with_recid", "Generator.verify", "Generator.possible_public_pairs_for_signature",
-                "Key.sign", "Key.verify", "deterministic_generate_k")
+    rec.require(*REQUIRED_OPS)
+    rec.require(*REQUIRED_BIG)
     if NS.libsecp256k1 is None:
         rec.ev("config_absent:libsecp256k1")
         rec.note("libsecp256k1 not loadable: configuration absent")
     want_pure = bool(spec.get("env")) or spec["gen"] == "inproc"
     if want_pure and ctx.native_mul:
         raise RuntimeError("shard meant to run the pure path but the generator has native optimisations")
+    # the configuration a shard was planned for must be the one that ran: an "openssl" shard that silently ran the pure
+    # arithmetic leaves the OpenSSL-accelerated configuration of the quantifier unobserved -> INCONCLUSIVE, not "held"
+    rec.require("config_active:%s/%s" % (spec["curve"], "pure" if want_pure else "openssl"))
+    rec.ev("config_active:%s/%s" % (spec["curve"], "openssl" if ctx.native_mul else "pure"))
     if not want_pure and not ctx.native_mul:
         rec.note("OpenSSL optimisations not active in the default worker: OpenSSL configuration absent, shard ran pure")
         rec.ev("config_absent:openssl")
-    rec.ev("config:" + spec.get("label", ctx.cfg))
+        rec.ev("config:" + spec.get("label", ctx.cfg) + "(ABSENT, ran pure)")
+    else:
+        rec.ev("config:" + spec.get("label", ctx.cfg))
     dp, zp = d_pool(n, rng), z_pool(n, rng)
     rng.shuffle(dp)
     rng.shuffle(zp)
     N = spec["families"]
+    if not want_pure and not ctx.native_mul:
+        N = min(N, 8)            # the run is INCONCLUSIVE anyway (config_active); do not spend an OpenSSL-sized budget on pure arithmetic
     prev_d, prev_z = dp[0], zp[0]
     rnd_d = lambda: rng.randrange(1, n) if rng.random() < 0.7 else rng.choice(dp)
     rnd_z = lambda: (rng.randrange(1, 1 << 256) if rng.random() < 0.75 else rng.choice(zp))
@@ -593,11 +767,14 @@ def run_big(spec, rec):
             judge_verify(ctx, base_case(ctx, "verify", Q=list(Qf), z=zf, r=rf, s=sf, label=label, as_point=bool((i + j) % 4 == 0)))
         # recovery: no parity, signer's parity, opposite parity; pure configurations rotate (each call costs 2-4 multiplies)
         recid = res[2] if res else (sg["R"][1] & 1)
-        parities = [(None, None), (recid & 1, "same"), (1 - (recid & 1), "opposite")]
+        variants = recover_variants(c, r, s, recid, sg["R"])
         if mode == "lite":
-            parities = [parities[i % 3]]
-        for yp, fr in parities:
-            judge_recover(ctx, base_case(ctx, "recover", z=z, r=r, s=s, y_parity=yp, from_recid=fr, signer=list(Q), R=list(sg["R"])))
+            variants = [variants[i % len(variants)]]
+        else:
+            variants = variants[:3] + [variants[3 + i % 2]]
+        for label, sv, yp, fr, Rv in variants:
+            judge_recover(ctx, base_case(ctx, "recover", z=z, r=r, s=sv, y_parity=yp, from_recid=fr, signer=list(Q), R=list(Rv),
+                                         label=label))
         if full:
             lab, Qf, zf, rf, sf = fs[12 + (i // 3) % 11]
             judge_recover(ctx, base_case(ctx, "recover", z=zf, r=rf, s=sf, y_parity=None))
@@ -628,6 +805,12 @@ def run_big(spec, rec):
                 judge_verify(ctx, base_case(ctx, "verify", Q=list(Qw), z=zw, r=rw, s=sw, label="valid_wrapped_nonce_x_ge_n", as_point=False))
                 judge_verify(ctx, base_case(ctx, "verify", Q=list(Qw), z=zw, r=rw, s=n - sw, label="valid_wrapped_nonce_x_ge_n", as_point=False))
                 judge_verify(ctx, base_case(ctx, "verify", Q=list(Qw), z=zw, r=rw + 1, s=sw, label="wrapped_nonce_wrong_r", as_point=False))
+                # recovery only lifts x = r: the signer need not come back, whatever does must verify
+                judge_recover(ctx, base_case(ctx, "recover", z=zw, r=rw, s=sw, y_parity=[None, 0, 1][(i // 6) % 3], signer=list(Qw),
+                                             R=list(R), label="valid_wrapped_nonce_x_ge_n"))
+        # valid signatures in algebraic corner cases of the verification / recovery sums that no signer produces by chance
+        if i % 4 == 1:
+            special_cases(ctx, rng, d, Q, i, lite=(mode == "lite"))
         if i < 2:
             rec.sample({"config": spec.get("label"), "event": "sign", "d": d, "z": z, "r": r, "s": s, "k": sg["k"],
                         "forgeries_checked": [f[0] for f in fs]})
@@ -659,8 +842,10 @@ def run_toy(spec, rec):
     ctx = get_ctx(spec["curve"], "inproc", rec)
     c, n = ctx.c, ctx.c.n
     rng = shard_rng(spec["seed"], PROPERTY, spec["tier"], spec["shard"])
-    rec.require("Generator.sign", "Generator.sign_with_recid", "Generator.verify", "Generator.possible_public_pairs_for_signature",
-                "Key.sign", "Key.verify", "deterministic_generate_k")
+    rec.require(*REQUIRED_OPS)
+    rec.require(*REQUIRED_TOY)
+    if spec.get("wrap"):
+        rec.require(*REQUIRED_TOY_WRAP)
     rec.ev("config:toy/inproc-pure")
     rec.ev("toy_curve_shards")
     qlen = n.bit_length()
@@ -689,9 +874,10 @@ def run_toy(spec, rec):
                     cands = [RE.raw_sign(c, d, z % n, k) for k in range(1, n)]
                     cands = [RR for (rr, ss, RR) in cands if (rr, ss) == (r, s)]
                     R = cands[0] if len(cands) == 1 else None        # ambiguous nonce point: signer not demanded
-                yp, fr = [(None, None), (recid & 1, "same"), (1 - (recid & 1), "opposite")][i % 3]
-                judge_recover(ctx, base_case(ctx, "recover", z=z, r=r, s=s, y_parity=yp, from_recid=fr, signer=list(pub[d]),
-                                             R=list(R) if R else None))
+                variants = recover_variants(c, r, s, recid, R)
+                label, sv, yp, fr, Rv = variants[i % len(variants)]
+                judge_recover(ctx, base_case(ctx, "recover", z=z, r=r, s=sv, y_parity=yp, from_recid=fr, signer=list(pub[d]),
+                                             R=list(Rv) if Rv else None, label=label))
             if i % 5 == 0:
                 judge_key(ctx, base_case(ctx, "key", d=d, z=z))
     # --- verification truth table
